@@ -208,6 +208,9 @@ func (instr *InstrActions) UnmarshalBinary(data []byte) error {
 		if err != nil {
 			return err
 		}
+		if act.Len() == 0 {
+			return errors.New("an action in the instruction reports length 0")
+		}
 		instr.Actions = append(instr.Actions, act)
 		n += int(act.Len())
 	}
